@@ -51,6 +51,7 @@ type Engine struct {
 	ghosts   map[*types.Func]*ghostInfo
 	ghostVars map[*types.Var]bool
 	noEffectRe []*regexp.Regexp
+	argsOnlyRe []*regexp.Regexp // callees that may only write through their arguments
 	lemmaPos map[*Lemma]*declInfo
 	typeTags map[string]int
 	mu       sync.Mutex
@@ -96,11 +97,20 @@ func (eng *Engine) loadNoEffect(path string) error {
 		if line == "" || strings.HasPrefix(line, "#") {
 			continue
 		}
+		argsOnly := false
+		if strings.HasPrefix(line, "args:") {
+			argsOnly = true
+			line = strings.TrimSpace(strings.TrimPrefix(line, "args:"))
+		}
 		re, err := regexp.Compile(line)
 		if err != nil {
 			return fmt.Errorf("%s: %v", path, err)
 		}
-		eng.noEffectRe = append(eng.noEffectRe, re)
+		if argsOnly {
+			eng.argsOnlyRe = append(eng.argsOnlyRe, re)
+		} else {
+			eng.noEffectRe = append(eng.noEffectRe, re)
+		}
 	}
 	return nil
 }
@@ -415,6 +425,19 @@ func replaceIdent(s, id, repl string) string {
 		i++
 	}
 	return b.String()
+}
+
+func (eng *Engine) argsOnly(fn *types.Func) bool {
+	if fn == nil {
+		return false
+	}
+	full := fn.FullName()
+	for _, re := range eng.argsOnlyRe {
+		if re.MatchString(full) {
+			return true
+		}
+	}
+	return false
 }
 
 func (eng *Engine) unitOf(fn *types.Func) *FuncUnit {
